@@ -167,7 +167,16 @@ Qed.
 
 Lemma wf_file s i : wf s = true -> i < length s -> file_wf s i = true.
 Proof.
-  intros H Hi. unfold wf in H. rewrite forallb_forall in H. apply H. apply in_seq. lia.
+  intros H Hi. unfold wf in H. rewrite forallb_forall in H.
+  assert (Hin : In i (seq 0 (length s))) by (apply in_seq; lia).
+  specialize (H i Hin). apply andb_true_iff in H. destruct H as [H _]. exact H.
+Qed.
+
+Lemma wf_fields s i : wf s = true -> i < length s -> fields_wf s i = true.
+Proof.
+  intros H Hi. unfold wf in H. rewrite forallb_forall in H.
+  assert (Hin : In i (seq 0 (length s))) by (apply in_seq; lia).
+  specialize (H i Hin). apply andb_true_iff in H. destruct H as [_ H]. exact H.
 Qed.
 
 Lemma strs_eqb_eq a : forall b, strs_eqb a b = true -> a = b.
